@@ -143,8 +143,22 @@ fn repl_snapshots(ctx: &mut Ctx) {
     std::fs::create_dir_all(&dir).unwrap();
     const LINES: &[&str] = &["1", "2 3", "drop", "10 var a a", "a 1 + ! a a", ": sq dup * ; 4 sq", "\"x\" println", "[ 1 2 ]", "depth", "oops", "1 0 /", "|ff| open-bitstr u8"];
     let sessions = if ctx.thorough { 200 } else { 30 };
-    for _ in 0..sessions {
+    // sessions that are always part of the run: snapshots taken in one mode and rolled back to in the other, with lines
+    // frozen in between (a snapshot is untouched by whatever the live interpreter does afterwards, in either mode)
+    const FIXED: &[&[&str]] = &[
+        &["/repl", "1", "/snapshot", "/trial", "2", "/repl", "/rollback", "/rollback", "depth"],
+        &["/repl", "1", "/snapshot", "2", "/snapshot", "/trial", "3", "4", "/repl", "/rollback", "/rollback", "/rollback", "depth"],
+        &["1", "/snapshot", "2", "3", "/rollback", "/rollback", "depth"],
+        &["/snapshot", "10 var a a", "/snapshot", "a 1 + ! a a", "/repl", "/rollback", "a", "/rollback", "a", "/rollback", "depth"],
+        &["/repl", ": sq dup * ; 4 sq", "/snapshot", "/trial", "oops", "1 0 /", "/trial", "/repl", "/rollback", "4 sq", "/rollback", "4 sq", "depth"],
+        &["/repl", "|ff 01| open-bitstr u8", "/snapshot", "u8", "/rollback", "u8", "/trial", "/trial", "drop", "/rollback", "/rollback", "depth"],
+    ];
+    for k in 0..(FIXED.len() + sessions) {
         let mut lines: Vec<String> = Vec::new();
+        if k < FIXED.len() {
+            lines.extend(FIXED[k].iter().map(|l| l.to_string()));
+            ctx.tag("repl-binary:fixed-session");
+        } else {
         if ctx.rng.chance(70) { lines.push("/repl".into()); }
         for _ in 0..(3 + ctx.rng.below(10)) {
             lines.push(match ctx.rng.below(10) {
@@ -156,6 +170,7 @@ fn repl_snapshots(ctx: &mut Ctx) {
             });
         }
         lines.push("depth".into());
+        }
         ctx.progress(&format!("xeh < {:?}", lines));
         // the binary
         let got = (|| -> Option<(String, String)> {
@@ -209,8 +224,67 @@ fn repl_snapshots(ctx: &mut Ctx) {
     let _ = std::fs::remove_dir_all(&dir);
 }
 
+/// Copies that are used in turn — a source on one, a source on another, a clone of a clone in between — against the
+/// same copies used ALONE: every copy is an interpreter that was given its own sources and nothing else (the sources
+/// of its origin up to the clone, then its own), so a fresh interpreter given exactly those, with no other interpreter
+/// touched in between, shows the same result and the same state after every one of them. The sources are the ones whose
+/// meaning depends on what the interpreter has been told before: names that are defined again, late-bound words,
+/// variables, the byte order and the position in the input.
+fn interleaved_vs_solo(ctx: &mut Ctx) {
+    const POOL: &[&str] = &[
+        ": f 1 ;", ": f 2 ;", ": f f 10 + ;", "f", "f f +", "5 var v", "7 var v", "v", "v 1 + ! v", "late g : callg g ;", ": g 3 ;", ": g 4 ;", "callg",
+        "big", "little", "big?", "|00 01 00 02 00 03 00 04 3f 80 00 00| open-bitstr", "|ff fe| open-bitstr", "u16", "i16", "2 bytes", "16 uint", "f32", "9 int",
+        "1 u16!", "258 16 uint!", "offset", "remain", "close-bitstr", "8 seek", "depth", "drop", "defined f", "[ 1 u16! 2 u16! ] >bitstr",
+    ];
+    let rounds = if ctx.thorough { 400 } else { 60 };
+    let fresh = || { let mut xs = Xstate::boot().unwrap(); xs.intercept_stdout(true); xs.intercept_output(true).unwrap(); xs.set_insn_limit(Some(LIMIT)).unwrap(); xs };
+    let sig = |xs: &mut Xstate, r: &Option<Xresult>| format!("{:?} {}", r.as_ref().map(|r| r.as_ref().map_err(canon::err).map(|_| ())), snapshot(xs));
+    for round in 0..rounds {
+        struct C { xs: Xstate, hist: Vec<(String, String)> }
+        let mut copies: Vec<C> = vec![C { xs: fresh(), hist: vec![] }];
+        // the first rounds are about one theme each, the others mix them
+        let theme: Vec<&str> = match round % 4 {
+            0 => POOL.iter().cloned().filter(|s| s.contains('f') && !s.contains("open") && !s.contains("f32") || *s == "depth").collect(),
+            1 => POOL.iter().cloned().filter(|s| s.contains("big") || s.contains("little") || s.contains("u16") || s.contains("open") || s.contains("int") || s.contains("f32")).collect(),
+            2 => POOL.iter().cloned().filter(|s| s.contains('v') || s.contains('g')).collect(),
+            _ => POOL.to_vec(),
+        };
+        let nops = 6 + ctx.rng.below(16);
+        for _ in 0..nops {
+            let i = ctx.rng.below(copies.len());
+            if copies.len() < 4 && ctx.rng.chance(22) {
+                let c = C { xs: copies[i].xs.clone(), hist: copies[i].hist.clone() };
+                copies.push(c);
+                continue;
+            }
+            let src = *ctx.rng.pick(&theme);
+            let c = &mut copies[i];
+            let r = crate::guarded(|| c.xs.eval(src));
+            let s = sig(&mut c.xs, &r);
+            c.hist.push((src.to_string(), s));
+        }
+        // every copy alone
+        for (i, c) in copies.iter().enumerate() {
+            let mut solo = fresh();
+            for (k, (src, seen)) in c.hist.iter().enumerate() {
+                let r = crate::guarded(|| solo.eval(src));
+                let s = sig(&mut solo, &r);
+                if &s != seen {
+                    let told: Vec<&str> = c.hist[..=k].iter().map(|(s, _)| s.as_str()).collect();
+                    ctx.oracle_fail(format!("C03 copy {} of {} used in turn with the others; its own sources {:?}", i, copies.len(), told),
+                        format!("after `{}`, as on an interpreter given these sources alone: {}", src, s), seen.clone());
+                    break;
+                }
+                ctx.oracle_ok();
+            }
+        }
+        ctx.tag("kind:interleaved-vs-solo");
+    }
+}
+
 pub fn run(ctx: &mut Ctx) {
     repl_snapshots(ctx);
+    interleaved_vs_solo(ctx);
     let cfg = GenCfg { endless: false, malformed_percent: 15, max_depth: 3, ..GenCfg::default() };
     let sweep0 = sweep();
     let sweep1 = sweep();
@@ -384,7 +458,10 @@ fn run_histories(ctx: &mut Ctx, cfg: &GenCfg) {
                 let core = |x: &mut Xstate| vmcanon::core_dump(&x.verif_dump());
                 let mut trail: Vec<String> = vec![core(&mut o)];
                 for _ in 0..(ctx.rng.below(25) + 3) {
-                    if !o.is_running() || crate::guarded(|| o.next()).map(|r| r.is_err()).unwrap_or(true) { break; }
+                    if !o.is_running() { break; }
+                    // (a step that FAILED is stepped back through first — it may have popped its operands: from there on
+                    // the two copies are compared with each other only; false alarm of the thorough run, seed 1)
+                    if crate::guarded(|| o.next()).map(|r| r.is_err()).unwrap_or(true) { trail.clear(); break; }
                     trail.push(core(&mut o));
                 }
                 let mut c = o.clone();
